@@ -118,6 +118,51 @@ theorem foldl_upd_of_not_memo (w : Walker) (cfa : UInt64) (r : Name) (l : List (
     rw [upd_of_not_memo _ _ _ _ _ (h p List.mem_cons_self)]
     exact ih _ (fun q hq => h q (List.mem_cons_of_mem _ hq))
 
+theorem upd_idem (w : Walker) (cfa : UInt64) (r : Name) (cur : Option UInt64) (p : Name × Expr) :
+    upd w cfa r (upd w cfa r cur p) p = upd w cfa r cur p := by
+  unfold upd
+  by_cases hm : w.memo p.1 = some r
+  · simp only [hm, if_true]
+    cases evalCfi w.env (some cfa) p.2 with
+    | none => rfl
+    | some v => by_cases hf : w.fits v = true <;> simp [hf]
+  · simp [hm]
+
+/-- If `p` is the only rule of `l` whose label denotes `r`, folding `upd` over `l` is `upd` at `p`. -/
+theorem foldl_upd_unique (w : Walker) (cfa : UInt64) (r : Name) (p : Name × Expr) (l : List (Name × Expr))
+    (cur : Option UInt64) (hp : p ∈ l) (hmemo : w.memo p.1 = some r)
+    (huniq : ∀ q ∈ l, w.memo q.1 = some r → q = p) :
+    l.foldl (upd w cfa r) cur = upd w cfa r cur p := by
+  induction l generalizing cur with
+  | nil => cases hp
+  | cons q l ih =>
+    simp only [List.foldl_cons]
+    have huniq' : ∀ q' ∈ l, w.memo q'.1 = some r → q' = p :=
+      fun q' hq' => huniq q' (List.mem_cons_of_mem _ hq')
+    by_cases hq : w.memo q.1 = some r
+    · have hqp : q = p := huniq q List.mem_cons_self hq
+      subst hqp
+      by_cases hin : q ∈ l
+      · rw [ih _ hin huniq', upd_idem]
+      · apply foldl_upd_of_not_memo
+        intro q' hq' hm
+        exact hin (huniq' q' hq' hm ▸ hq')
+    · rw [upd_of_not_memo _ _ _ _ _ hq]
+      have hin : p ∈ l := by
+        rcases List.mem_cons.mp hp with rfl | h
+        · exact absurd hmemo hq
+        · exact h
+      exact ih _ hin huniq'
+
+theorem upd_comm (w : Walker) (cfa : UInt64) (r : Name) (z : Option UInt64) (x y : Name × Expr)
+    (h : w.memo x.1 = some r → w.memo y.1 = some r → x = y) :
+    upd w cfa r (upd w cfa r z x) y = upd w cfa r (upd w cfa r z y) x := by
+  by_cases hx : w.memo x.1 = some r
+  · by_cases hy : w.memo y.1 = some r
+    · rw [h hx hy]
+    · rw [upd_of_not_memo _ _ _ _ y hy, upd_of_not_memo _ _ _ _ y hy]
+  · rw [upd_of_not_memo _ _ _ _ x hx, upd_of_not_memo _ _ _ _ x hx]
+
 /-! ## insertion sort -/
 
 theorem insertBy_perm {α} (le : α → α → Bool) (x : α) (l : List α) : (insertBy le x l).Perm (x :: l) := by
